@@ -189,12 +189,20 @@ def _single_extra(family):
             ok, binp, hlog = cclib.harness_build(cfg)
             if not ok:
                 continue
-            for (arg, b, w) in variants:
-                N = m.SINGLE_N
+            # sizes: 2^31 + margin always; and — in the family's own check and in every thorough run — one call of more
+            # than 2^32 BYTES for one variant (byte counts / block offsets held in u32 wrap only there: two seeded
+            # changes of round 6 needed 4 GiB in one call)
+            jobs = [(v, m.SINGLE_N) for v in variants]
+            if pid != "C08" or tier == "thorough":
+                # BLAKE: a variant with 32-bit counter words (the narrowest arithmetic), alternating 224 / 256 with the seed
+                big = (("224", 64, 32) if seed % 2 == 0 else ("256", 64, 32)) if family == "blake" else variants[0]
+                jobs.append((big, 2 ** 32 + 4096 + 5))
+            for ((arg, b, w), N) in jobs:
                 prefix = (seed * 13 + len(arg) * 7 + int(arg.split("-")[0])) % b
                 good, what, detail, ev = m._job_single_call(family, cfg, binp, arg, b, prefix, N, seed % 1000,
                                                             m.single_expect(family, b, w, prefix + N))
                 out["coverage"]["single_update_jobs"] += 1
+                out["coverage"]["single_update_sizes"] = sorted(set(out["coverage"].get("single_update_sizes", []) + [N]))
                 out["evaluations"] += ev
                 if not good:
                     rp = cclib.write_replay(pid, seed, "single-update-%s%s-%s" % (family, arg, cfg), detail + "\n")
